@@ -312,6 +312,23 @@ def _a7_unit(u: Unit):
                 for y in ast.walk(t):
                     if isinstance(y, ast.Name) and y.id in params:
                         needed.add(y.id)
+        # a memo kept on self by a nested function is shared by every closure the enclosing
+        # method ever made: the enclosing call's parameters and locals the value is computed
+        # from (free variables here) distinguish the closures and must be part of the key
+        # (validating them when the closure is made does not help the closures made earlier)
+        if u.parent is not None:
+            outer: Set[str] = set()
+            p_ = u.parent
+            while p_ is not None:
+                outer |= {x for x in p_.params if x not in ("self", "cls")}
+                outer |= {t.id for a_ in walk_local(p_.node) if isinstance(a_, ast.Assign)
+                          for t in a_.targets if isinstance(t, ast.Name)}
+                p_ = p_.parent
+            local_defs = {d.name for d in du.defs}
+            for name in sorted(outer - local_defs):
+                if depends_on(du, st.value, nid, {name}) and \
+                        not depends_on(du, key_expr, nid, {name}):
+                    needed.add(f"{name} (of the enclosing call)")
         out.append((st, attr, key_expr, sorted(covered), sorted(needed - covered)))
     return out
 
@@ -1170,16 +1187,27 @@ def _build_attr_aliases(prog: Program) -> None:
             continue
         du = DefUse(init, CFG(init.node, exc_edges=False))
         table: Dict[str, Tuple[str, str]] = {}
+        stores: Dict[str, List[Tuple[int, Optional[Tuple[str, str]]]]] = {}
         for n in du.cfg.nodes:
-            if n.kind == "stmt" and isinstance(n.ast, ast.Assign):
+            if n.kind == "stmt" and isinstance(n.ast, ast.Assign) and not n.copy_of:
                 for t in n.ast.targets:
                     d = dotted(t)
                     if d and d.startswith("self.") and d.count(".") == 1:
                         al = _alias_kind(prog, init, du, n.id, n.ast.value, params)
-                        if al is not None:
-                            table[d[5:]] = al
-                        else:
-                            table.pop(d[5:], None)
+                        stores.setdefault(d[5:], []).append((n.id, al))
+        # the attribute aliases the argument if, on some path, an aliasing store is the last
+        # store to it (a later re-binding to a copy only helps on the paths it lies on)
+        g = du.cfg
+        for attr, sts in stores.items():
+            ids = {nid for (nid, _) in sts}
+            for (nid, al) in sts:
+                if al is None:
+                    continue
+                starts = [b for (b, l) in g.succ[nid] if b not in ids]
+                if nid == g.exit or g.find_path(starts, lambda x: x == g.exit,
+                                                blocked=lambda x, ids=ids: x in ids) is not None:
+                    table[attr] = al
+                    break
         # attributes re-bound in other methods to something else are still aliases at first
         if table:
             _ATTR_ALIAS[(ci.module.short, ci.name)] = table
@@ -1764,6 +1792,16 @@ def a6b(prog: Program, chk: Check) -> None:
                         "depend on whether this ran", x, function=owner)
 
 
+def a9(prog: Program, chk: Check) -> None:
+    chk.rule("A9", "no function of the package updates in place an object it does not own "
+             "(beyond parameters, which A5 judges): an array read from an attribute of another "
+             "object, an element of a container, a free variable of a closure, or the result of "
+             "a callable that hands out its stored arrays - a later call or step would compute "
+             "with what an earlier one left behind", floor=20)
+    from rules.ownership import inplace_updates
+    inplace_updates(prog, chk, "A9", floor=20)
+
+
 def run(prog: Program, chk: Check) -> None:
     chk.explanation = (
         "Decides the structural ways in which state leaks in this code base: A1 methods "
@@ -1788,3 +1826,4 @@ def run(prog: Program, chk: Check) -> None:
     chk.call(a6, prog, chk)
     chk.call(a6b, prog, chk)
     chk.call(a8, prog, chk)
+    chk.call(a9, prog, chk)
